@@ -180,7 +180,10 @@ def check_no_aliasing(ctx, c):
 def rand_value(rng):
     r = rng.random()
     if r < 0.35:
-        return S(rng.choice(["v", "p q", "", " lead", "a&b", "<x>", "50%", "q\"r"]))
+        v_ = S(rng.choice(["v", "p q", "", " lead", "a&b", "<x>", "50%", "q\"r"]))
+        if rng.random() < 0.15:
+            v_["sub"] = True   # a str subclass is a string value
+        return v_
     if r < 0.5:
         return HV(rng.choice(["h", "a&amp;b", "", "h i"]))
     if r < 0.65:
